@@ -33,6 +33,16 @@ class Skel:
         return 'Skel(%s)' % self.name
 
 
+
+def relabel_actions(sk, amap, name=None, reverse_order=True):
+    """the same skeleton with other action labels (used to bring FALSY labels -- 0, '' -- into a family; reverse_order puts a falsy label that was
+    first in a state's action tuple behind the others, where `x or default` idioms go wrong)"""
+    f = lambda a: amap.get(a, a)
+    acts = {s: tuple(f(a) for a in (reversed(v) if reverse_order else v)) for s, v in sk.actions.items()}
+    return Skel(name or sk.name + '-falsy-actions', sk.states, acts, {(s, f(a)): v for (s, a), v in sk.supp.items()}, absorbing=sk.absorbing, init=sk.init,
+                zero_prob={(s, f(a)): v for (s, a), v in sk.zero_prob.items()}, zero_reward={(s, f(a), n) for (s, a, n) in sk.zero_reward},
+                explicit_lists=sk.explicit_lists)
+
 def facade_modules():
     import msdm.core.mdp.tabularmdp as tm, msdm.core.mdp.tables as tb, msdm.core.table.table as tt, \
         msdm.core.mdp.tabularpolicy as tp, msdm.core.mdp.policy as pol
